@@ -292,6 +292,11 @@ def parse_sidecar(path):
                 unit.parts.append(('enumvals', w[1], w[2], w[3]))
                 cur = None
                 item = None
+            elif w[0] == 'strtable':
+                # //@ strtable <path> <fn> <enum-path> <enum> <name-regex> <constname>
+                unit.parts.append(('strtable', w[1], w[2], w[3], w[4], w[5], w[6]))
+                cur = None
+                item = None
             elif w[0] == 'end':
                 cur = None
                 item = None
@@ -418,6 +423,34 @@ def build(repo, sidecar_path, extra_spec=None):
                   lambda i: ('src', path, l0))
             g.enumvals = getattr(g, 'enumvals', {})
             g.enumvals[cname] = vals
+            continue
+        if part[0] == 'strtable':
+            if open_wrap:
+                g.add('}', lambda i: ('gen',))
+                open_wrap = None
+            _, path, fnname, epath, enum, rx, cname = part
+            src = srcs.setdefault(path, open(os.path.join(repo, path)).read())
+            esrc = srcs.setdefault(epath, open(os.path.join(repo, epath)).read())
+            vals, _l0 = read_enum_discriminants(esrc, enum)
+            disc = dict(vals)
+            span = find_item(src, 'fn', fnname)
+            body = src[span[0]:span[1]]
+            l0 = line_of(src, span[0])
+            rows = []
+            for m in re.finditer(r'((?:"(?:[^"\\\\]|\\\\.)*"\s*\|?\s*)+)=>\s*' + re.escape(enum) + r'::([A-Za-z0-9_]+)\s*,', body):
+                for nm in re.findall(r'"((?:[^"\\\\]|\\\\.)*)"', m.group(1)):
+                    if re.fullmatch(rx, nm):
+                        if m.group(2) not in disc:
+                            raise ExtractionLost('%s: %s::%s not found in enum' % (path, enum, m.group(2)))
+                        rows.append((nm, m.group(2), disc[m.group(2)]))
+            if not rows:
+                raise ExtractionLost('%s: no arm of fn %s matches /%s/' % (path, fnname, rx))
+            rows.sort()
+            g.items.append({'name': cname, 'kind': 'strtable', 'path': path, 'src_line': l0,
+                            'gen_first': len(g.lines) + 1, 'gen_last': len(g.lines) + 2,
+                            'sha256': hashlib.sha256(repr(rows).encode()).hexdigest(), 'count': len(rows)})
+            g.add('// names read from the match arms of fn %s: %s' % (fnname, ', '.join('%s=>%s' % (r[0], r[1]) for r in rows)), lambda i: ('src', path, l0))
+            g.add('spec fn %s() -> Seq<int> { seq![%s] }' % (cname, ', '.join('%dint' % r[2] for r in rows)), lambda i: ('src', path, l0))
             continue
         item = part[1]
         src = srcs.setdefault(item.path, open(os.path.join(repo, item.path)).read())
